@@ -18,9 +18,21 @@ func TestMain(m *testing.M) { os.Exit(ev.Main(ID, m)) }
 
 func TestReplay(t *testing.T) { prop.Replay(t, nil) }
 
+var mdRunes = []rune{'|', '<', '>', '&', '"', '\'', '\n', '\\', '`', 'a', ' ', 0x6f22}
+
 func itemGen() *rapid.Generator[gen.Item] {
 	tok := gen.StrItem(gen.TokMD, 4)
+	anyItem := gen.AnyItem(gen.TokMD, 1)
 	return rapid.Custom(func(t *rapid.T) gen.Item {
+		switch rapid.IntRange(0, 11).Draw(t, "kind") {
+		case 0:
+			return gen.Item{K: "rune", N: int64(rapid.SampledFrom(mdRunes).Draw(t, "rune"))}
+		case 1, 2:
+			it := gen.NoAddressText(anyItem.Draw(t, "any"))
+			if l := gen.Materialise(it); !strings.Contains(gen.TextForm(it, l), "\r") {
+				return it
+			}
+		}
 		if rapid.IntRange(0, 9).Draw(t, "raw") == 0 {
 			b := rapid.SliceOfN(rapid.Byte(), 0, 8).Draw(t, "bytes")
 			return gen.S(strings.ReplaceAll(string(b), "\r", "?")) // CR is a documented non-goal
@@ -35,12 +47,13 @@ func caseGen() *rapid.Generator[Case] {
 		max = 14
 	}
 	opts := gen.ScriptOpts{
-		Item:     itemGen(),
-		MinOps:   0,
-		MaxOps:   max,
-		MaxCells: 4,
-		ForceHdr: true,
-		Creators: []string{"core", "markdown", "markdown", "csv"},
+		Item:        itemGen(),
+		MinOps:      0,
+		MaxOps:      max,
+		MaxCells:    4,
+		ForceHdr:    true,
+		AllowMutate: true,
+		Creators:    []string{"core", "markdown", "markdown", "csv"},
 	}
 	withHdr := gen.ScriptGen(opts)
 	opts.ForceHdr = false
@@ -53,6 +66,9 @@ func caseGen() *rapid.Generator[Case] {
 			c.Script = withHdr.Draw(t, "script")
 		}
 		c.Align = rapid.SliceOfN(rapid.IntRange(0, 3), 0, 6).Draw(t, "align")
+		if rapid.IntRange(0, 3).Draw(t, "pre?") == 0 {
+			c.Pre = 1 + rapid.IntRange(0, len(c.Script.Ops)).Draw(t, "pre")
+		}
 		return c
 	})
 }
